@@ -32,24 +32,7 @@ def log(*a):
     print(*a, flush=True)
 
 
-CHILD_PGIDS = []
-
-
-def _kill_children(*_a):
-    for pg in list(CHILD_PGIDS):
-        try:
-            os.killpg(pg, 9)
-        except Exception:
-            pass
-    if _a:
-        os._exit(2)
-
-
-import atexit
-import signal
-atexit.register(_kill_children)
-signal.signal(signal.SIGTERM, _kill_children)
-signal.signal(signal.SIGINT, _kill_children)
+from guard import run_guarded, CHILD_PGIDS  # noqa: E402
 
 
 def write_cargo_toml(d):
@@ -80,6 +63,9 @@ def repo_tree_hash():
                     h.update(fp.encode())
                     h.update(open(fp, "rb").read())
     return head[:12], h.hexdigest()[:16]
+
+
+
 
 
 # ------------------------------------------------------------------------------------------------
@@ -136,58 +122,10 @@ def kani_group(pid, gname, group, harnesses, jobs, workdir):
         cmd += ["--cbmc-args"] + cbmc_args
         group["cbmc_args_resolved"] = cbmc_args
     t0 = time.time()
-    # memory guard: CBMC is memory-bound here (no swap). A `ulimit -v` on cargo-kani would also hit
-    # kani-compiler (it reserves a lot of address space), so a watchdog kills any of OUR cbmc
-    # processes whose resident set passes the cap; Kani then reports no result for that harness and
-    # it is classified inconclusive.
-    import threading
-    cap_kb = int(group.get("mem_gb", 12)) * 1024 * 1024
-    stop = threading.Event()
-    killed = []
-
-    def watchdog(pgid_holder):
-        while not stop.wait(5.0):
-            try:
-                out = subprocess.run(["ps", "-eo", "pid,pgid,rss,comm"], capture_output=True, text=True).stdout
-            except Exception:
-                continue
-            mine = []
-            for line in out.split("\n")[1:]:
-                f = line.split()
-                if len(f) == 4 and f[3].startswith("cbmc") and pgid_holder and f[1] == str(pgid_holder[0]):
-                    mine.append((int(f[2]), int(f[0])))
-                    if int(f[2]) > cap_kb:
-                        try:
-                            os.kill(int(f[0]), 9)
-                            killed.append(int(f[0]))
-                        except Exception:
-                            pass
-            # system-wide guard (no swap): before the kernel's OOM killer picks a victim at random
-            # (it has taken cargo-kani itself), give up on our largest solver process
-            try:
-                avail = int(re.search(r"MemAvailable:\s+(\d+)", open("/proc/meminfo").read()).group(1))
-            except Exception:
-                avail = None
-            if avail is not None and avail < 3 * 1024 * 1024 and mine:
-                rss, pid_ = max(mine)
-                try:
-                    os.kill(pid_, 9)
-                    killed.append(pid_)
-                except Exception:
-                    pass
-
-    holder = []
-    with open(out_log, "w") as lf:
-        proc = subprocess.Popen(cmd, cwd=KANI_DIR, env=ENV_BASE, stdout=lf, stderr=subprocess.STDOUT, start_new_session=True)
-        holder.append(os.getpgid(proc.pid))
-        CHILD_PGIDS.append(holder[0])
-        th = threading.Thread(target=watchdog, args=(holder,), daemon=True)
-        th.start()
-        proc.wait()
-        stop.set()
+    rc = run_guarded(cmd, KANI_DIR, ENV_BASE, out_log, int(group.get("mem_gb", 12)))
 
     class _P:
-        returncode = proc.returncode
+        returncode = rc
     p = _P()
     wall = time.time() - t0
     res = {}
@@ -351,6 +289,13 @@ def main():
             import random
             random.Random(seed).shuffle(names)
         jobs = min(budget[gname], group.get("max_jobs", a.jobs))
+        # memory-bound machine: never start more solver processes than the memory that is available
+        # now can hold at this group's measured per-process footprint (est_gb, default 3 GB)
+        try:
+            avail_gb = int(re.search(r"MemAvailable:\s+(\d+)", open("/proc/meminfo").read()).group(1)) / 1048576.0
+            jobs = max(1, min(jobs, int((avail_gb - 4) / float(group.get("est_gb", 3)))))
+        except Exception:
+            pass
         log("[%s] group %s: %d harnesses (timeout %ds each, -j %d)" % (pid, gname, len(names), group["timeout_s"], jobs))
         res, wall, tail = kani_group(pid, gname, group, names, jobs, workdir)
         log("[%s] group %s done in %.0fs" % (pid, gname, wall))
